@@ -82,9 +82,9 @@ TEXTS = ['hello', 'a b', 'NGC 1234', 'x;y', 'a; b; c', ';', 'tag#1', '# leading 
          # '=' with blanks around it; characters that str.splitlines() treats as line boundaries but the DS9 line grammar
          # does not (form feed, vertical tab, FS/GS/RS, NEL, LS, PS); a tab
          'S/N = 5.2', 'a =b', 'a= b', 'page\x0cbreak', 'v\x0bt', 'fs\x1cgs\x1drs\x1eus\x1fend', 'nel\x85x', 'ls\u2028x', 'ps\u2029x',
-         'tab\tx']
+         'tab\tx', 'a b c}', 'x}y', '{x}', 'brace} and "quote"']
 NUMERIC_TEXTS = ['42', '007', '1e3', '3.14', 'nan', 'inf', '-5', '+7', ' 12 ', '1_000', 'Infinity', '0']
-TAGS = ['k = v', 'g\x0c1', 'a', 'group 1', 'src', 'bkg', 'Tag-3', 'x_y', 'A B C', '1', '2.5', 'α', 'a#b', 'k=v', 'Group 1', 'b']
+TAGS = ['k = v', 'g\x0c1', 'x}y', 'a', 'group 1', 'src', 'bkg', 'Tag-3', 'x_y', 'A B C', '1', '2.5', 'α', 'a#b', 'k=v', 'Group 1', 'b']
 COLORS = ['red', 'green', 'blue', 'cyan', 'magenta', 'yellow', 'black', 'white', '#ff0000', '#0F0', '#12ab9F', 'Red', '#000000']
 FLAGS = ['select', 'highlite', 'fixed', 'edit', 'move', 'rotate', 'delete', 'source', 'background']
 DROPPED_META = [('label', 'my label'), ('comment', 'a comment'), ('name', 'n1'), ('type', 'ann'), ('frame', 'x'), ('label', 'L 2')]
@@ -450,6 +450,12 @@ def generate(rng, tier, shard, nshards):
         p = gen_p(rng)
         pe = 8 if p is None else p
         r = rng.random()
+        if i % 10 == 9:
+            # regions that were born from hand-written DS9 text (the grammar of the DS9-reading check): properties in all
+            # spellings, global lines, composites ... - serialise and parse them again
+            yield {'lane': 'text-born', 'p': 12, 'doc': {'lane': rng.choice(['doc', 'doc', 'meta', 'composite', 'matrix']), 'rs': rng.randrange(2 ** 40),
+                                                          'idx': rng.randrange(10 ** 6)}}
+            continue
         if r < 0.2:
             frame = rng.choice(FRAMES)
             shape = pick_shape(rng, frame)
@@ -838,7 +844,49 @@ def round_trip(obs, case, regs, specs):
     return s1, r1b, len(w1)          # the unedited parse
 
 
+def run_text_born(case, obs):
+    """parse(T) -> serialise -> parse: class, include sense, text/tags and every other meta / visual entry of the first parse
+    are kept (coordinates are not compared here: T is not written on the precision grid)."""
+    from regions import Regions
+    from vmon.checks import c10
+    _STAGE[0] = 'build'
+    text = c10.render(c10.build(case['doc']))
+    _STAGE[0] = 'parse'
+    with warnings.catch_warnings():
+        warnings.simplefilter('ignore')
+        try:
+            r1 = list(Regions.parse(text, format='ds9'))
+        except Exception:
+            obs.skip(1, 'text-born')           # whether T itself is read correctly is another property's business
+            return
+    if not r1:
+        return
+    _STAGE[0] = 'serialize'
+    s1, _w = _ser(r1, 'regions', case['p'])
+    _STAGE[0] = 'parse'
+    r2 = _parse(s1)
+    _STAGE[0] = 'compare'
+    obs.count('text-born-regions', len(r1))
+    if not obs.check(len(r1) == len(r2), 'text-born-region-count', f'{len(r1)} regions parsed from the text, {len(r2)} after serialise -> parse', 'text-born'):
+        return
+    for a, b in zip(r1, r2):
+        cls = type(a).__name__
+        if not obs.check(type(a) is type(b), 'text-born-class-changed', f'{cls} came back as {type(b).__name__}', 'text-born'):
+            continue
+        for attr in ('meta', 'visual'):
+            da, db = dict(getattr(a, attr)), dict(getattr(b, attr))
+            for k in sorted(set(da) | set(db)):
+                va, vb = da.get(k, '<absent>'), db.get(k, '<absent>')
+                same = va == vb or (isinstance(va, float) and isinstance(vb, float) and va != va and vb != vb)
+                obs.check(same, f'text-born-{attr}-not-kept:{k}', f'{cls} parsed from text has {attr}[{k!r}] = {va!r}; after serialise -> parse it is {vb!r}',
+                          'text-born', text=text[:600])
+        if hasattr(a, 'text'):
+            obs.check(a.text == b.text, 'text-born-meta-not-kept:text', f'{cls}.text {a.text!r} came back as {b.text!r}', 'text-born')
+
+
 def run_case(case, obs):
+    if case['lane'] == 'text-born':
+        return run_text_born(case, obs)
     specs = case['regions']
     _STAGE[0] = 'build'
     regs = [build_region(s) for s in specs]
